@@ -81,6 +81,8 @@ class Engine:
         nmax = 30 if tier == "quick" else 80
         if part == "tok":
             mx = T.between(1, 8)
+            if T.draw(12) == 0:
+                mx = T.between(9, 45)   # occasionally long tokens
             sc["tok"] = {"max_length": mx, "min_length": T.between(1, mx),
                          "mcs": T.draw(mx),
                          "init_min": T.draw(mx) if T.draw(3) == 0 else 0,
